@@ -617,13 +617,24 @@ class Interp:
             if isinstance(val, (VTop, VUser)):
                 # unknown enum value: both outcomes possible
                 s2 = st.copy()
+                yes, no = [st], [s2]
+                if isinstance(val, VUser) and name == "Some":
+                    # the decision is a fact of the path (one uninterpreted boolean per option value)
+                    key = ("is_some", val.key)
+                    if (key, False) in st.unk:
+                        return [], [s2]
+                    if (key, True) in st.unk:
+                        no = []
+                    else:
+                        st.unk = st.unk + ((key, True),)
+                        s2.unk = s2.unk + ((key, False),)
                 for i, p in enumerate(pat["pats"]):
                     if isinstance(val, VUser) and name == "Some":
                         inner = VNat(Poly.atom(("somev", val.key)))
                     else:
                         inner = VTop(getattr(val, "why", "user"))
                     self.match_pat(p, inner, st, fr)
-                return [st], [s2]
+                return yes, no
             if isinstance(val, VNat) and name in ("NodeId", "EdgeId"):
                 return self.match_pat(pat["pats"][0], val, st, fr)
             raise Unsupported(f"tuple_struct pattern {name} on {type(val).__name__}")
@@ -1122,9 +1133,13 @@ class Interp:
         return out
 
     def ev_break(self, e, st, fr):
+        if e.get("label") or e.get("e"):
+            raise Unsupported("labelled break / break with a value")
         return [(st, UNIT, "break")]
 
     def ev_continue(self, e, st, fr):
+        if e.get("label"):
+            raise Unsupported("labelled continue")
         return [(st, UNIT, "continue")]
 
     def ev_loop(self, e, st, fr):
